@@ -76,7 +76,7 @@ func runLeak(o fsOpts) *result {
 					if err != nil {
 						return
 					}
-					defer e.Close()
+					defer e.Shutdown()
 					s := h.NewSession(e)
 					s.Timeout = o.watchdog
 					r := rand.New(rand.NewSource(o.seed*1_000_003 + int64(j)))
@@ -217,7 +217,7 @@ func runLeak(o fsOpts) *result {
 									report(len(calls), fmt.Sprintf("a restore with a different private key returned %d bytes", len(b)))
 								}
 							}
-							we.Close()
+							we.Shutdown()
 						}
 					}
 					mu.Lock()
